@@ -257,7 +257,7 @@ impl Property for C14 {
         ]
     }
     fn expected_probes(&self) -> Vec<&'static str> {
-        vec!["sna_loaded", "szx_loaded", "szx_compressed_page", "szx_unknown_chunk", "dirty_receiver", "ay_twin_compared", "halted_flag", "eilast_flag", "encodings_compared", "mismatch_rejected", "scr_loaded", "presence_checked", "locked_file", "display_checked"]
+        vec!["sna_loaded", "szx_loaded", "szx_compressed_page", "szx_unknown_chunk", "dirty_receiver", "ay_twin_compared", "halted_flag", "eilast_flag", "encodings_compared", "mismatch_rejected", "scr_loaded", "presence_checked", "locked_file", "display_checked", "display_other_bank_checked"]
     }
 
     fn gen(&self, rng: &mut Rng, _tier: Tier, idx: u64) -> Scenario {
@@ -465,6 +465,26 @@ impl Property for C14 {
                         ));
                     }
                     ctx.probe("display_checked");
+                }
+                // the other 128K screen bank must have reached the display as well: switch to it
+                if m128 && s.port_7ffd & 0x20 == 0 {
+                    for e in [&mut r1, &mut r2] {
+                        let (latch, _, _) = e.verif_paging();
+                        e.verif_bus().write_io(0x7FFD, latch ^ 0x08);
+                        run_frames(e, 2).map_err(|x| Fail::new("C14.run", "", x))?;
+                        let now_shadow = (latch ^ 0x08) & 8 != 0;
+                        let page = if now_shadow { 7 } else { 5 };
+                        let mem: Vec<u8> = e.verif_ram_page(page)[..6912].to_vec();
+                        let px = &e.screen_buffer().px;
+                        if &screen::decode(&mem, false) != px && &screen::decode(&mem, true) != px {
+                            return Err(Fail::new(
+                                "C14.display_other_bank",
+                                &format!("format={},shadow_after={}", ["sna", "szx"][fmt], now_shadow as u8),
+                                format!("after the load the program switched the displayed screen to bank {}: the picture is not the decode of that bank (its contents came from the file and were never shown before)", page),
+                            ));
+                        }
+                        ctx.probe("display_other_bank_checked");
+                    }
                 }
                 // audible AY state
                 if fmt == 1 && opt.with_ay {
